@@ -1391,7 +1391,7 @@ def probe_optional_union(ctx: vlib.Ctx, n: int):
 # ---------------------------------------------------------------------------
 
 CODE_THEOREMS = ["C12_code_variants", "C12_code_exceptions"]
-THEOREMS = ["C12_registry_invariant", "C12_registry", "C12_missing_tag", "C12_present_keys_not_missing", "C12_nested_missing_key", "C12_multi_field", "C12_variant_keyerror_refuted", "C12_unhashable_tag", "C12_non_mapping", "C12_history_independent",
+THEOREMS = ["C12_registry_invariant", "C12_registry", "C12_missing_tag", "C12_present_keys_not_missing", "C12_nested_missing_key", "C12_multi_field", "C12_variant_keyerror_refuted", "C12_dispatch_ref", "C12_history_independent_full", "C12_uniq_all_decidable", "C12_unhashable_tag", "C12_non_mapping", "C12_history_independent",
             "C12_eligible_exact", "C12_nofield", "C12_trace_event", "C12_tag_unique_decidable",
             "C12_nonunique_order_dependent", "C12_class_level_self_excluded",
             "C12_nofield_inherited_unpacker_refuted"]
@@ -1468,9 +1468,9 @@ def run(ctx: vlib.Ctx):
         observed, flags, fails = run_history(h)
         results.append((h, observed, flags, fails))
         cases.append(coq_case(h, observed, flags))
-    bad, log = vlib.coq_bad_idx("c12_hist", "Discr", "", "Close Scope Z_scope.\nOpen Scope nat_scope.\n", cases, "case_ok",
+    bad, log = vlib.coq_bad_idx("c12_hist", "Discr DiscrRef", "", "Close Scope Z_scope.\nOpen Scope nat_scope.\n", cases, "case_ok_ref",
                                 "list site * list op * list (option outcome) * list (option bool)",
-                                shard=250, needs=["theories/Discr.vo"])
+                                shard=250, needs=["theories/DiscrRef.vo"])
     corr_ok = True
     if bad is None:
         corr_ok = False
